@@ -379,7 +379,39 @@ func c01TinyInputs() []c01Run {
 	return out
 }
 
-var c01ValueList = append(append(c01ValueCases(), c01StoreCases()...), c01TinyInputs()...)
+// ---- control-flow signals raised from a loop header (through a match block), with and without an enclosing loop,
+// at rule level and inside a function: a syntax error or an ordinary run, never a leaked signal
+func c01HeaderSignals() []c01Run {
+	var out []c01Run
+	for _, sig := range []string{"break", "continue", "return", "return 5", "next", "exit"} {
+		m := "match (1) { 1 => { " + sig + " } }"
+		headers := []string{
+			"for (i = " + m + "; i < 2; i++) { print i }",
+			"for (i = 0; " + m + "; i++) { print i }",
+			"for (i = 0; i < 2; i = " + m + ") { print i }",
+			"while (" + m + ") { print 'w' }",
+			"for (x in " + m + ") { print x }",
+			"for (k, x in [" + m + "]) { print x }",
+			"if (" + m + ") { print 't' }",
+			"print [" + m + ", 2]",
+		}
+		for _, h := range headers {
+			for _, wrap := range []string{"BEGIN { %s }", "BEGIN { for (o in [1, 2]) { %s } print 'after' }", "function f() { %s; return 'r' } BEGIN { print f() }", "function f() { while (n++ < 2) { %s } return 'r' } { print f() }", "%s { print 'rule' }"} {
+				if strings.HasPrefix(wrap, "%s {") && !strings.HasPrefix(h, "print [") {
+					continue
+				}
+				prog := fmt.Sprintf(wrap, h)
+				if strings.HasPrefix(wrap, "%s {") {
+					prog = m + " { print 'rule' }"
+				}
+				out = append(out, c01Run{prog: prog, input: []byte("[1, 2]"), name: "header-signal:" + sig + ":" + prog})
+			}
+		}
+	}
+	return out
+}
+
+var c01ValueList = append(append(append(c01ValueCases(), c01StoreCases()...), c01TinyInputs()...), c01HeaderSignals()...)
 
 // ---- sampled
 
@@ -535,7 +567,7 @@ func c01Run_(c *Case) {
 func init() {
 	register(&Prop{
 		ID: "C01", Level: "exploration",
-		Rule:          "outcome classification only (no model): every run must end as ok / syntax / runtime / json; a recovered panic, a control-flow sentinel or any other error value, the death of the worker process, and for the binary a signal, a Go trace on stderr or a non-zero status without diagnostic are violations. Enumerated: {next, exit, break, continue, return, return v} x 16 placements (BEGIN, END, BEGINFILE, ENDFILE, pattern body, pattern expression via a match block, function called from each of the five rule kinds, match block in BEGIN / pattern rule / function, -r selector via a match block alone and after a plain selector) x {plain, while, for, for-in, nested for-in, nested if} x 4 inputs, all also through the binary; 28 nestable constructs nested 1000 / 8000 / as deep as 64 KiB allows, and 6 of them inside a self-recursive function (recursion x nesting); 22 cyclic / shared shapes (built twice) x 62 operations that walk a value (comparison, contains, sort, match, iteration, rendering, arithmetic, member chains, stores into itself) and 15 histories that shrink an array through one of two references and then walk it through the other; 25 store forms (plain, nested, through fresh names, through $, with ++ / += / --) x 18 keys of every kind (booleans, null, unset, containers, regex, function, fractions, negative, huge) on bases of every kind; every one-byte input and 50 short prefixes of byte-order marks, multi-byte sequences and JSON tokens; all also through the binary. Sampled: whole-grammar random programs in random layouts, token-level mutations, byte-level mutations of these and of the repository's fuzz corpus, raw bytes; hostile inputs (JSONL, truncated, stray closers, nesting to 20000, garbage, empty); generated / mutated / garbage selectors; EvalExpression on JSON-typed roots; fuzzing flag on and off; step budget 50000 (budget-exhausted runs are inconclusive). Non-trivial = at least 3 interpreter steps executed (hook) or a syntax error in a text of >= 10 bytes; distinct by hash of program+selectors+input.",
+		Rule:          "outcome classification only (no model): every run must end as ok / syntax / runtime / json; a recovered panic, a control-flow sentinel or any other error value, the death of the worker process, and for the binary a signal, a Go trace on stderr or a non-zero status without diagnostic are violations. Enumerated: {next, exit, break, continue, return, return v} x 16 placements (BEGIN, END, BEGINFILE, ENDFILE, pattern body, pattern expression via a match block, function called from each of the five rule kinds, match block in BEGIN / pattern rule / function, -r selector via a match block alone and after a plain selector) x {plain, while, for, for-in, nested for-in, nested if} x 4 inputs, all also through the binary; 28 nestable constructs nested 1000 / 8000 / as deep as 64 KiB allows, and 6 of them inside a self-recursive function (recursion x nesting); 22 cyclic / shared shapes (built twice) x 62 operations that walk a value (comparison, contains, sort, match, iteration, rendering, arithmetic, member chains, stores into itself) and 15 histories that shrink an array through one of two references and then walk it through the other; 25 store forms (plain, nested, through fresh names, through $, with ++ / += / --) x 18 keys of every kind (booleans, null, unset, containers, regex, function, fractions, negative, huge) on bases of every kind; every one-byte input and 50 short prefixes of byte-order marks, multi-byte sequences and JSON tokens; the six signals raised from every loop-header position / condition / print list through a match block, with and without an enclosing loop, at rule level and inside functions; all also through the binary. Sampled: whole-grammar random programs in random layouts, token-level mutations, byte-level mutations of these and of the repository's fuzz corpus, raw bytes; hostile inputs (JSONL, truncated, stray closers, nesting to 20000, garbage, empty); generated / mutated / garbage selectors; EvalExpression on JSON-typed roots; fuzzing flag on and off; step budget 50000 (budget-exhausted runs are inconclusive). Non-trivial = at least 3 interpreter steps executed (hook) or a syntax error in a text of >= 10 bytes; distinct by hash of program+selectors+input.",
 		NumCases:      c01Cases,
 		Run:           c01Run_,
 		MinConclusive: func(tier string) int { return 20000 },
